@@ -1199,6 +1199,16 @@ def m_opt_and(sim, st, c):
     return sim.mk_enum(c["ret_ty"], "None") if v.vname == "None" else c["args"][1]
 
 
+@pattern(r"^std::convert::num::<impl std::convert::From<(i|u)(8|16|32)> for f(32|64)>::from$")
+def m_float_from_small_int(sim, st, c):
+    """`f32::from(i8 / i16 / u8 / u16)`, `f64::from(.. / i32 / u32)`: the lossless int -> float conversion, the same value as the
+    `as` cast (whatever narrowed the integer beforehand is a `Cast:IntTrunc` term in the operand and is seen by the value rules)."""
+    v = sim.resolve(st, c["args"][0])
+    if isinstance(v, Const) and isinstance(v.val, int) and not isinstance(v.val, bool):
+        return Const(float(v.val), c["ret_ty"])
+    return Term("Cast:IntToFloat", (v,), c["ret_ty"])
+
+
 @pattern(r"^std::convert::num::<impl std::convert::TryFrom<(i|u)(8|16|32|64|128|size)> for (i|u)(8|16|32|64|128|size)>::try_from$")
 def m_int_try_from(sim, st, c):
     """Checked integer conversion: whether the value fits is a property of the value, so both outcomes are explored for a symbolic
